@@ -100,10 +100,13 @@ fn gen_structured(rng: &mut Rng, order: &[usize], nc: usize) -> Vec<Vec<L>> {
 
 fn gen_plain(rng: &mut Rng, nv: usize, nc: usize) -> Vec<Vec<L>> {
     let all: Vec<usize> = (0..nv).collect();
+    // wide family (a fifth of the formulas with >= 5 variables): a few clauses of 5..nv literals of
+    // mixed polarity among binary ones (implications that force a variable of a wide clause)
+    let wide = nv >= 5 && rng.chance(1, 5);
     (0..nc)
         .map(|_| {
-            let len = *rng.pick(&[2usize, 2, 3, 3, 3, 4, 2, 3, 1]);
-            gen_clause_over(rng, &all, len)
+            let len = if wide { *rng.pick(&[2usize, 2, 5, 6, 7, 8, 5, 2, 3]) } else { *rng.pick(&[2usize, 2, 3, 3, 3, 4, 2, 3, 1]) };
+            gen_clause_over(rng, &all, len.min(nv))
         })
         .collect()
 }
@@ -265,6 +268,30 @@ pub fn gen(rng: &mut Rng, idx: usize, n: usize, thorough: bool) -> String {
         order.extend(rest);
         order.retain(|v| *v < nvars_of(&raw));
         return case_string(&order, &raw);
+    }
+    // wide family: one to three clauses of 5..8 literals of mixed polarity, plus short clauses that
+    // share variables with them (a variable of a wide clause is implied on one branch and open on
+    // the other)
+    if frac >= 25 && rng.chance(1, 8) {
+        let nvw = rng.range(6, 8);
+        let all: Vec<usize> = (0..nvw).collect();
+        let mut raw: Vec<Vec<L>> = vec![];
+        for _ in 0..rng.range(1, 3) {
+            let len = rng.range(5, nvw);
+            raw.push(gen_clause_over(rng, &all, len));
+        }
+        for _ in 0..rng.range(1, 4) {
+            let w = raw[rng.below(raw.len().min(3) as u64) as usize].clone();
+            let shared = *rng.pick(&w);
+            let other = *rng.pick(&all);
+            let mut c = vec![(shared.0, rng.coin()), (other, rng.coin())];
+            if rng.chance(1, 3) { c.push((*rng.pick(&all), rng.coin())); }
+            c.dedup_by_key(|l| l.0);
+            raw.push(c);
+        }
+        rng.shuffle(&mut raw);
+        let nvr = nvars_of(&raw);
+        return case_string(&rng.perm(nvr), &raw);
     }
     let order = rng.perm(nv);
     let raw = if rng.chance(3, 4) { gen_structured(rng, &order, nc) } else { gen_plain(rng, nv, nc) };
